@@ -239,8 +239,15 @@ func (c *Ctx) Finish() int {
 	cov["distinct_nontrivial"] = len(c.distinct)
 	cov["rule"] = c.Rule
 	samples := c.samples
-	if samples == nil {
+	if len(samples) == 0 {
+		// a monitor that recorded no explicit sample: the fingerprints of observed cases serve as samples
 		samples = []any{}
+		for k := range c.distinct {
+			if len(samples) >= 5 {
+				break
+			}
+			samples = append(samples, map[string]any{"observed_case_fingerprint": k})
+		}
 	}
 	cov["samples"] = samples
 	if len(c.distinct) > 0 {
@@ -278,7 +285,7 @@ func (c *Ctx) Finish() int {
 	}
 	b, _ := json.MarshalIndent(ev, "", " ")
 	os.MkdirAll(filepath.Join(c.Root, "evidence"), 0o755)
-	if os.Getenv("VERIF_NO_EVIDENCE") == "" {
+	if os.Getenv("VERIF_NO_EVIDENCE") == "" && c.ReplayPath == "" {
 		os.WriteFile(filepath.Join(c.Root, "evidence", c.Prop+".json"), append(b, '\n'), 0o644)
 	}
 
